@@ -29,8 +29,8 @@ import RisorModel.C20.Bridge
        the lexer/parser bridge of Bridge.lean (theorems: BridgeProps.lean)
        src:   a source text (the harness's own rendering of the tree)
        tree:  the expression tree (S-expression of harness/gen.go) or `-`
-       gaps:  `-`, or items joined by `,`: `b<hex>` = blanks, `c<hex>.<hex>.<hex>` = blanks, comment body,
-              blanks (hex of the runes as UTF-8; `-` = empty)
+       gaps:  `-`, or items joined by `,`: `b<hex>` = blanks, `c<hex>.<hex>.<hex>[.<hex>.<hex>…]` = blanks, then
+              one (comment body, blanks) pair per block comment (hex of the runes as UTF-8; `-` = empty)
        → ok TAB tokens TAB renderSrc TAB flags TAB layoutSrc TAB gapsOk
        tokens:    `toTokens (lexOuts src)` — the ADAPTER applied to the lexer model's output — as
                   `typehex:lithex` items joined by `,` (the encoding harness/c01parse.go uses for the
@@ -148,16 +148,25 @@ def showTokens (ts : List Risor.C01.Pratt.Token) : String :=
 
 def hexChars (h : String) : Option Chars := srcOf h
 
+/-- (body, blanks) pairs of a comment run -/
+def decodePairs : List String → Option (List (Chars × Chars))
+  | [] => some []
+  | b :: w :: rest =>
+    match hexChars b, hexChars w, decodePairs rest with
+    | some b, some w, some r => some ((b, w) :: r)
+    | _, _, _ => none
+  | [_] => none
+
 def decodeGapItem (item : String) : Option Gap :=
   match item.toList with
   | 'b' :: rest => (hexChars (String.ofList rest)).map Gap.blanks
   | 'c' :: rest =>
     match (String.ofList rest).splitOn "." with
-    | [a, b, c] =>
-      match hexChars a, hexChars b, hexChars c with
-      | some a, some b, some c => some (.comment a b c)
-      | _, _, _ => none
-    | _ => none
+    | lead :: pairs =>
+      match hexChars lead, decodePairs pairs with
+      | some lead, some cs => some ⟨lead, cs⟩
+      | _, _ => none
+    | [] => none
   | _ => none
 
 def decodeGaps (field : String) : Option (List Gap) :=
